@@ -66,8 +66,20 @@ func NewServer(dir string, extra ...string) *Server {
 
 var httpClient = &http.Client{Timeout: 5 * time.Second}
 
-// Start launches the process on fresh ports and waits until it answers.
+// Start launches the process on fresh ports and waits until it answers. A port picked by freePort can be taken
+// by another process before the server binds it (the machine runs other checks); that start is retried.
 func (s *Server) Start() error {
+	var err error
+	for attempt := 0; attempt < 4; attempt++ {
+		if err = s.start(); err == nil || !strings.Contains(err.Error(), "exited during start") {
+			return err
+		}
+		time.Sleep(100 * time.Millisecond)
+	}
+	return err
+}
+
+func (s *Server) start() error {
 	s.HTTP, s.GRPC, s.Poll, s.Metrics = freePort(), freePort(), freePort(), freePort()
 	s.n++
 	s.logPath = filepath.Join(s.Dir, fmt.Sprintf("server.%d.log", s.n))
